@@ -444,7 +444,7 @@ def embedded_positive(chk):
     ok = e.sum["cnvlib.pos.do_thing"].mut == {"arr"} and not e.sum["cnvlib.pos.do_clean"].mut
     sites = rules.rng_sites(p)
     res = {fi.name: rules.seeded(p, e, fi, n)[0] for fi, n, _, _ in sites}
-    ok = ok and res == {"draw": False, "draw_ok": True}
+    ok = ok and {k: v for k, v in res.items() if k in ("draw", "draw_ok")} == {"draw": False, "draw_ok": True}
     _, banned = rules.fanout_sites(p)
     ok = ok and len(banned) == 1
     if not ok:
